@@ -463,6 +463,10 @@ def run_check(prop: str, sim: typing.Any, tier: str, seed: int, workers: int, re
         if rc == 0 and agg.cases == 0:
             print("HARNESS-ERROR property=%s no case completed" % prop)
             return 2
+        if rc == 0 and (len(agg.nontrivial) < 2 or agg.skipped * 2 > agg.cases):
+            # a batch in which (almost) nothing could be compared proves nothing: never report it as "held"
+            print("HARNESS-ERROR property=%s vacuous batch: %d non-trivial cases, %d of %d inputs skipped (reference generation fails?)" % (prop, len(agg.nontrivial), agg.skipped, agg.cases))
+            return 2
         return rc
     finally:
         pool.shutdown()
